@@ -6,23 +6,30 @@
 #include "abti.h"
 int vf_fail_at, vf_calls; static int inj(void) { vf_calls++; return vf_calls == vf_fail_at; }
 static int live_mem, live_xs, live_primary, live_aff, n_start, min_live; static ABTI_xstream prim; static ABTI_ythread primy;
+static unsigned clk, t_finish, t_orphan, t_free_primary, t_free_xs, t_mem_fin, n_finish, n_orphan, n_free_primary, n_tool_off, n_unit_fin; static ABTI_sched mainsched;
 static void low(int v) { if (v < min_live) min_live = v; }
 void ABTD_env_init(ABTI_global *g) { live_aff++; g->print_config = ABT_FALSE; }
 void ABTD_affinity_finalize(ABTI_global *g) { live_aff--; low(live_aff); }
 int ABTI_mem_init(ABTI_global *g) { if (inj()) return ABT_ERR_MEM; live_mem++; return ABT_SUCCESS; }
-void ABTI_mem_finalize(ABTI_global *g) { live_mem--; low(live_mem); }
+void ABTI_mem_finalize(ABTI_global *g) { live_mem--; low(live_mem); t_mem_fin = ++clk; }
 void ABTI_thread_reset_id(void) {} void ABTI_sched_reset_id(void) {} void ABTI_pool_reset_id(void) {}
-void ABTI_unit_init_hash_table(ABTI_global *g) {} void ABTI_unit_finalize_hash_table(ABTI_global *g) {}
+void ABTI_unit_init_hash_table(ABTI_global *g) {} void ABTI_unit_finalize_hash_table(ABTI_global *g) { n_unit_fin++; }
 int ABTI_xstream_create_primary(ABTI_global *g, ABTI_xstream **pp) { if (inj()) return ABT_ERR_MEM; live_xs++; *pp = &prim; return ABT_SUCCESS; }
-void ABTI_xstream_free(ABTI_global *g, ABTI_local *l, ABTI_xstream *x, ABT_bool force) { __CPROVER_assert(x == &prim && force == ABT_TRUE, "the primary stream that was created is freed"); __CPROVER_assert(live_mem == 1, "a stream is freed while the memory pools still exist"); live_xs--; low(live_xs); }
+void ABTI_xstream_free(ABTI_global *g, ABTI_local *l, ABTI_xstream *x, ABT_bool force) { t_free_xs = ++clk; if (g) g->p_xstream_head = NULL; __CPROVER_assert(x == &prim && force == ABT_TRUE, "the primary stream that was created is freed"); __CPROVER_assert(live_mem == 1, "a stream is freed while the memory pools still exist"); live_xs--; low(live_xs); }
 int ABTI_ythread_create_primary(ABTI_global *g, ABTI_local *l, ABTI_xstream *x, ABTI_ythread **pp) { __CPROVER_assert(lp_ABTI_local == (ABTI_local *)&prim, "the primary ULT is created with the stream installed as the caller's context"); if (inj()) return ABT_ERR_MEM; live_primary++; *pp = &primy; return ABT_SUCCESS; }
 void ABTI_xstream_start_primary(ABTI_global *g, ABTI_xstream **pp, ABTI_xstream *x, ABTI_ythread *y) { n_start++; }
 void ABTI_info_print_config(ABTI_global *g, FILE *f) {}
+/* ABT_finalize: ghost clock orders the teardown steps */
+void ABTI_tool_event_thread_update_callback(ABTI_global *g, ABT_tool_thread_callback_fn cb, uint64_t mask, void *arg) { if (cb == NULL) n_tool_off++; }
+void ABTI_ythread_free_primary(ABTI_global *g, ABTI_local *l, ABTI_ythread *y) { __CPROVER_assert(y == &primy && prim.p_thread == NULL, "the primary ULT is detached from the stream before it is freed"); n_free_primary++; live_primary--; low(live_primary); t_free_primary = ++clk; }
 ABTI_global *gp_ABTI_global;
 #include <local.c> /* the real thread-local accessors */
 #include "env/spinlock_ghost.h"
 #define ABTD_spinlock_acquire(l) (vf_lock_held++, vf_acquires++)
 #define ABTD_spinlock_release(l) (vf_lock_held--, vf_releases++)
+/* ABTI_sched_finish / ABTI_ythread_yield_orphan are inline: redirect to recording stubs */
+#define ABTI_sched_finish(s) (n_finish++, t_finish = ++clk, (void)(s))
+#define ABTI_ythread_yield_orphan(pp, y, t, o) (n_orphan++, t_orphan = ++clk, (void)(pp), (void)(y))
 #include <global.c>
 
 void h_abt_init(void)
@@ -47,4 +54,25 @@ void h_abt_init(void)
     }
     VF_ASSERT(vf_fail_at == 0 || r != ABT_SUCCESS, "an injected failure is reported");
     VF_REACH("ABT_init"); VF_COVER(r != ABT_SUCCESS && vf_calls == 3, "primary ULT creation fails"); VF_COVER(r != ABT_SUCCESS && vf_calls == 0, "malloc of the global state fails"); VF_COVER(r == ABT_SUCCESS, "ok");
+}
+void h_abt_finalize(void)
+{
+    static ABTI_global *g; int r0 = ABTU_malloc(sizeof(ABTI_global), (void **)&g); if (r0 != ABT_SUCCESS) return;
+    gp_ABTI_global = g; lp_ABTI_local = (ABTI_local *)&prim; prim.type = ABTI_XSTREAM_TYPE_PRIMARY; prim.p_thread = &primy.thread; prim.p_main_sched = &mainsched; primy.thread.type = ABTI_THREAD_TYPE_YIELDABLE | ABTI_THREAD_TYPE_PRIMARY;
+    g->p_xstream_head = &prim; live_mem = live_xs = live_primary = live_aff = 1; min_live = 0; clk = 0; n_finish = n_orphan = n_free_primary = n_tool_off = n_unit_fin = 0; vf_lock_held = 0;
+    { int n; VF_ASSUME(1 <= n && n <= 3); g_ABTI_num_inits = n; } g_ABTI_initialized.val = 1; int n0 = g_ABTI_num_inits;
+    int r = ABT_finalize();
+    VF_ASSERT(r == ABT_SUCCESS && vf_lock_held == 0, "finalize succeeds on the primary ULT");
+    if (n0 > 1) { VF_ASSERT(g_ABTI_num_inits == n0 - 1 && live_mem == 1 && live_xs == 1 && n_finish == 0 && g_ABTI_initialized.val == 1 && gp_ABTI_global == g, "a nested finalize only counts down"); free(g); }
+    else {
+        VF_ASSERT(n_finish == 1 && n_orphan == 1 && t_finish < t_orphan, "the main scheduler is told to finish, then the primary ULT waits for it (once each)");
+        VF_ASSERT(n_free_primary == 1 && t_orphan < t_free_primary && t_free_primary < t_free_xs && t_free_xs < t_mem_fin, "only after all work has drained: primary ULT freed, then the primary stream, then the memory pools");
+        VF_ASSERT(live_mem == 0 && live_xs == 0 && live_primary == 0 && live_aff == 0 && min_live == 0, "everything released exactly once"); VF_ASSERT(n_unit_fin == 1, "unit map finalised once");
+#ifndef ABT_CONFIG_DISABLE_TOOL_INTERFACE
+        VF_ASSERT(n_tool_off == 1, "tool callback switched off once");
+#endif
+
+        VF_ASSERT(g_ABTI_num_inits == 0 && g_ABTI_initialized.val == 0 && gp_ABTI_global == NULL && lp_ABTI_local == NULL, "the library is uninitialised again, no dangling global or thread-local pointer");
+    }
+    VF_REACH("ABT_finalize"); VF_COVER(n0 == 1, "last finalize");
 }
